@@ -136,9 +136,14 @@ func ASCII85Decode(data []byte) ([]byte, error) {
 
 		// Convert base-85 to binary
 		// Each group of 5 digits represents 4 bytes
-		value := uint32(0)
+		// A group of five digits can spell values up to 85^5-1 > 2^32-1; such a
+		// group is invalid (ISO 32000-1 7.4.3) and must not wrap around silently.
+		value := uint64(0)
 		for _, d := range digits {
-			value = value*85 + uint32(d)
+			value = value*85 + uint64(d)
+		}
+		if value > 0xFFFFFFFF {
+			return nil, fmt.Errorf("invalid ASCII85 group: value %d exceeds 2^32-1", value)
 		}
 
 		// Extract bytes (big-endian)
